@@ -1,13 +1,13 @@
-\* C20 thorough: one gap deviation, five bases, pool of 2
+\* C20 thorough: one gap deviation at every token from five base layouts
 SPECIFICATION LSpec
 CONSTANTS
   Foci = {"lit"}
   Sizes <- SmallSizes
-  LFoci = {"stmt", "stmt2", "fstmt", "decl", "decl2", "class", "pairs", "samples"}
+  LFoci = {"stmt", "fstmt", "decl", "class", "pairs", "samples"}
   Bases = {"canon", "tight", "wide", "one", "nl"}
   MaxGap = 1
   MaxCm = 0
   CmKinds = {}
   MutKinds = {}
-  PoolN = 2
+  PoolN = 1
 INVARIANTS RescanOK CommentsOK GapsLegal TreeKept LShapesOK LExport
